@@ -332,3 +332,27 @@ pub fn ack_programs() -> Vec<Program> {
     }
     v
 }
+
+/// Flush acknowledgements racing the background flusher *while record writes fail*: the
+/// next 1 / 3 / 4 writes into the data area fail (one in-place retry; a whole batch, i.e.
+/// all three attempts; a batch and the first attempt of its successor), then the device
+/// works again. A flush that returns Ok is an acknowledgement like any other.
+pub fn ack_fault_programs() -> Vec<Program> {
+    let t = Arc::new(tables());
+    let mut v = Vec::new();
+    let cfg = small(true, false, 12);
+    let cases: Vec<(&str, Vec<Op>, Vec<Vec<Op>>)> = vec![
+        ("insert;tick|flush", vec![], vec![vec![ins(K, V1), Op::Tick], vec![Op::Flush]]),
+        ("insert;tick;flush", vec![], vec![vec![ins(K, V1), Op::Tick, Op::Flush]]),
+        ("overwrite;tick|flush", vec![ins(K, V1), Op::Flush], vec![vec![ins(K, V1B), Op::Tick], vec![Op::Flush]]),
+        ("overwrite;tick|flush;flush", vec![ins(K, V1), Op::Flush], vec![vec![ins(K, V1B), Op::Tick], vec![Op::Flush, Op::Flush]]),
+        ("insert;tick|insert-other;flush", vec![], vec![vec![ins(K, V1), Op::Tick], vec![ins(U, VU1), Op::Flush]]),
+        ("insert;flush|insert-other;flush", vec![], vec![vec![ins(K, V1), Op::Flush], vec![ins(U, VU1), Op::Flush]]),
+    ];
+    for n in [3u32, 1, 4] {
+        for (name, setup, threads) in cases.iter().cloned() {
+            v.push(Program { name: format!("ack:fault-data{n}:{name}"), cfg, tables: t.clone(), setup, threads, observe: vec![K, U] });
+        }
+    }
+    v
+}
